@@ -4,7 +4,10 @@
 (* bins (C10), transcribed from src/vsc/model/rangelist_model.py:           *)
 (*   compact()   - sort by lower bound, merge overlapping ranges            *)
 (*   intersect() - trim every range of `self` by every range of `other`     *)
-(*                 (used to remove ignore / illegal values)                 *)
+(*                 (used to remove ignore / illegal values); when a range   *)
+(*                 is removed the inner loop is left (fix 2026-10-01: the    *)
+(*                 code went on with index -1 and raised IndexError once the *)
+(*                 list was empty)                                           *)
 (* Obligation B |= A (Cov.tla): compact preserves the value set and yields  *)
 (* ascending pairwise-disjoint ranges; intersect yields exactly             *)
 (* Values(self) \ Values(other).  One TLC state per instance.               *)
@@ -34,8 +37,7 @@ Compact(s) == IF Len(s) = 0 THEN s ELSE Merge(Sort(s), 1)
 \* state of the loops: <<ranges, rng_i>> with rng_i 1-based here; _intersect may pop (index moves back) or split
 TrimOne(st, t) ==
   LET s == st[1]  i == st[2] IN
-  IF i < 1 \/ i > Len(s) THEN st          \* the code would index with a stale position; ranges exhausted
-  ELSE LET g == s[i] IN
+  LET g == s[i] IN
   IF g[1] >= t[1] /\ g[2] <= t[2]
   THEN <<[k \in 1..(Len(s) - 1) |-> IF k < i THEN s[k] ELSE s[k + 1]], i - 1>>              \* entirely inside: pop
   ELSE IF t[1] > g[1] /\ t[2] < g[2]
@@ -47,7 +49,9 @@ TrimOne(st, t) ==
   THEN <<[s EXCEPT ![i] = <<t[2] + 1, g[2]>>], i>>
   ELSE st
 RECURSIVE Inner(_, _, _), Outer(_, _)
-Inner(st, other, j) == IF j > Len(other) THEN st ELSE Inner(TrimOne(st, other[j]), other, j + 1)
+\* the inner loop leaves as soon as the range was removed (rng_i moved back)
+Inner(st, other, j) == IF j > Len(other) THEN st
+                       ELSE LET n == TrimOne(st, other[j]) IN IF n[2] < st[2] THEN n ELSE Inner(n, other, j + 1)
 Outer(st, other) == IF st[2] > Len(st[1]) THEN st[1]
                     ELSE LET n == Inner(st, other, 1) IN Outer(<<n[1], n[2] + 1>>, other)
 Intersect(s, other) == IF Len(s) = 0 \/ Len(other) = 0 THEN s ELSE Outer(<<s, 1>>, other)
